@@ -27,6 +27,8 @@ func c10(r *core.Report) {
 	ruleCopies(r)
 	r.Rule("C10-OFFSET-ORDER-FREE", "the position a fragment is copied to depends on that fragment and on fields fixed at construction only", 1)
 	ruleOffsetOrderFree(r, "C10-OFFSET-ORDER-FREE")
+	r.Rule("C10-PART-FIELDS-FIT", "part counts and indexes are narrowed to the header field width only under a range guard (a wrapped count of 0 or 1 makes the receiver deliver a lone fragment or an all-zero buffer)", 4)
+	ruleNarrow(r, "C10-PART-FIELDS-FIT")
 	r.Rule("C10-ID-ATOMIC", "a fragmented message's id is read and advanced in one critical section (or by one atomic add)", 2)
 	ruleFragIDAtomic(r, "C10-ID-ATOMIC")
 }
